@@ -83,6 +83,13 @@ fn run_wasm(case: &str, wasm: &[u8], rng: &mut Rng, thorough: bool, stats: &mut 
                 *stats.per_proposal_unneeded.entry(name.clone()).or_insert(0) += 1;
                 unneeded.push(name.clone());
             }
+            // the data-count section belongs to bulk-memory, but the reference validator accepts it
+            // under any feature set: decided syntactically
+            let input_uses_bulk_data = a.datas.iter().any(|d| matches!(d.mode, decode::DataMode::Passive))
+                || a.code.iter().any(|c| c.ops.iter().any(|o| o.is("MemoryInit") || o.is("DataDrop")));
+            if !f.contains(WasmFeatures::BULK_MEMORY) && b.data_count.is_some() && a.data_count.is_none() && !input_uses_bulk_data {
+                fails.push(("C20:output-needs-bulk-memory-data-count-section".into(), format!("the input validates under feature set `{}` (no bulk-memory), has no data-count section, no passive data segment and no memory.init/data.drop; the output has a data-count section", name)));
+            }
             if let Err(e) = decode::validate(&bytes, f) {
                 let key = if name.starts_with('-') { format!("C20:output-needs-{}", &name[1..]) } else { "C20:output-needs-more-than-input".to_string() };
                 fails.push((key, format!("the input validates under feature set `{}`, the output does not: {}", name, e)));
